@@ -5,7 +5,7 @@ ids="$@"; [ -z "$ids" ] && ids="C16 C20 C11 C09 C17 C06 C02 C12 C13 C14 C07 C03 
 ./setup.sh >/dev/null 2>&1
 for c in $ids; do
   s=$(date +%s)
-  ./check $c $tier > log_$c.$tier.txt 2>&1; rc=$?
+  ./check $c $tier ${VP_RUN_REPO:+-repo $VP_RUN_REPO} > log_$c.$tier.txt 2>&1; rc=$?
   e=$(date +%s)
   echo "$c $tier rc=$rc wall=$((e-s))s $(grep '^property=' log_$c.$tier.txt | cut -c1-120)"
   grep -E "^VIOLATION|^INCONCLUSIVE" log_$c.$tier.txt | head -5 | cut -c1-300
